@@ -1,5 +1,6 @@
 import KalignModel.Lemmas.Canon
 import KalignModel.Gen.Omp
+import KalignModel.Props.C03Kmeans
 /-!
 # C03 — the result does not depend on the order of the input
 
